@@ -11,6 +11,7 @@ use crate::{
     re_compiler::ReCompiler,
     re_flags::ReFlags,
     re_matcher::{CaptureState, ReMatcher},
+    re_program::OPT_HASBACKREFS,
 };
 
 // A sequence of multiple pieces in a regular expression.
@@ -194,6 +195,9 @@ struct SequenceIterator<'a> {
     backtracking_limit: Option<usize>,
     matcher: &'a ReMatcher<'a>,
     saved_state: Option<CaptureState>,
+    // the spans back-references compare against, saved together with the
+    // capture state
+    saved_backrefs: Option<(Vec<Option<usize>>, Vec<Option<usize>>)>,
 }
 
 impl<'a> SequenceIterator<'a> {
@@ -208,12 +212,20 @@ impl<'a> SequenceIterator<'a> {
         } else {
             None
         };
+        let saved_backrefs = if contains_capturing_expressions
+            && (matcher.program.optimization_flags & OPT_HASBACKREFS) != 0
+        {
+            Some(matcher.backref_state())
+        } else {
+            None
+        };
         Self {
             iterators: vec![operations.first().unwrap().matches_iter(matcher, position)],
             operations,
             backtracking_limit: matcher.program.backtracking_limit,
             matcher,
             saved_state,
+            saved_backrefs,
         }
     }
 }
@@ -272,6 +284,9 @@ impl Iterator for SequenceIterator<'_> {
         // restore saved state
         if let Some(saved_state) = &self.saved_state {
             self.matcher.reset_state(saved_state.clone());
+        }
+        if let Some(saved_backrefs) = &self.saved_backrefs {
+            self.matcher.reset_backref_state(saved_backrefs.clone());
         }
         None
     }
